@@ -170,7 +170,7 @@ def build_call(L, tool, par, S, F, rec):
         fn = getattr(L, tool)
         kw = {}
         if par["key"]:
-            kw["key"] = F("key")
+            kw["key"] = F(par.get("kf", "key"))
         if par["dflt"] == "fresh" or (par["dflt"] == "first" and not rec.first_item):
             kw["default"] = Node("default")
         elif par["dflt"] == "first":
